@@ -277,7 +277,7 @@ func (rw *rewriter) text(n ast.Node) string { return string(rw.src[rw.off(n.Pos(
 
 var forbiddenImports = map[string]string{
 	"syscall": "", "os/exec": "", "net": "", "net/http": "", "unsafe": "", "C": "", "os/signal": "",
-	"golang.org/x/sys/unix": "", "runtime": "", "sync/atomic": "", "context": "ok", "math/rand": "", "crypto/rand": "",
+	"golang.org/x/sys/unix": "", "runtime": "ok", "sync/atomic": "ok", "context": "ok", "math/rand": "", "crypto/rand": "",
 	"math/rand/v2": "", "io/fs": "ok", "embed": "ok",
 }
 
